@@ -103,6 +103,23 @@ type N struct {
 	reset bool // the hashgraph was reset by a fast-forward / rebuilt by a bootstrap: sync requests are not generated for it
 }
 
+// deafApp: the application's state-change handler fails (an application that is down, a socket proxy timing out).
+// Node.transition only logs such an error: the node's state machine must not depend on it. mode 1: fails always,
+// mode 2: fails once Init has returned.
+type deafApp struct {
+	*dummy.InmemDummyClient
+	mode   int
+	inited bool
+}
+
+func (a *deafApp) OnStateChanged(s _state.State) error {
+	if a.mode == 1 || (a.mode == 2 && a.inited) {
+		stats["app-state-handler-failed"]++
+		return fmt.Errorf("application unreachable")
+	}
+	return a.InmemDummyClient.OnStateChanged(s)
+}
+
 type nodeOpts struct {
 	maintenance, fastsync bool
 	suspendLimit, syncLimit int
@@ -127,8 +144,9 @@ func (w *World) newNode(self int, current, genesis []int, o nodeOpts) *N {
 	}
 	_, trans := net.NewInmemTransport(w.peers[self].NetAddr)
 	app := dummy.NewInmemDummyClient(hx.QuietLogger())
+	deaf := &deafApp{InmemDummyClient: app, mode: w.rng.Intn(3)}
 	nd := node.NewNode(conf, node.NewValidator(w.privs[self], w.peers[self].Moniker), w.peerSet(current), w.peerSet(genesis),
-		store, trans, app)
+		store, trans, deaf)
 	if o.preload != nil {
 		oc := o.preload.n.VerifCore()
 		diff, _ := oc.EventDiff(map[uint32]int{})
@@ -146,6 +164,7 @@ func (w *World) newNode(self int, current, genesis []int, o nodeOpts) *N {
 	if err := nd.Init(); err != nil {
 		panic(err)
 	}
+	deaf.inited = true
 	x := &N{w: w, id: w.nextN, self: self, origin: "configured", n: nd, app: app, known: map[uint32]int{}, conf: conf, trans: trans, lastTopo: -1}
 	w.nextN++
 	x.declare()
